@@ -326,6 +326,20 @@ class World:
                 # stdlib: the one-shot utf-16/32 decoders assume native order without a BOM, the incremental ones refuse
                 self.stats["probe:stdlib_bomless_utf16_skipped"] += 1
                 self.vacuous = True
+        if not self.decoding and self.expected_exc is None:
+            # the encoding the text's own header names (no explicit one): when it is a codec outside the generator's
+            # canonical families - reachable through a torn header followed by body characters, e.g. "utf_7'" - the
+            # same text has several valid byte forms (UTF-7 shift sequences) and the stdlib's own one-shot and
+            # chunked encoders already differ: executed, equality not judged
+            applied = self.explicit or codec.detectencoding_unicode(self.text, True)[0] or "utf-8"
+            try:
+                norm = codecs.lookup(applied).name
+            except LookupError:
+                norm = None
+            known = {codecs.lookup(e).name for e in UTF + SINGLE + MULTI}
+            if norm is not None and norm not in known:
+                self.stats["probe:foreign_codec_named_by_header"] += 1
+                self.vacuous = True
         self.final_answer = codec.detectencoding_str(self.data, True) if self.decoding else codec.detectencoding_unicode(self.text, True)
         # consumer under test
         if self.cons == "idec":
